@@ -134,6 +134,11 @@ yaml.add_multi_representer(np.integer, numpy_int_representer)
 yaml.add_multi_representer(np.complexfloating, complex_representer)
 yaml.add_representer(np.bool_, numpy_bool_representer)
 
+# numpy strings (e.g. channel labels taken from image.illumination.values)
+def numpy_str_representer(dumper, data):
+    return dumper.represent_str(str(data))
+yaml.add_representer(np.str_, numpy_str_representer)
+
 
 # numpy ufuncs can no longer be pickled as of numpy 1.20
 # we still want to yamlize them, especially for TransforedPrior
